@@ -90,6 +90,11 @@ func newUnit(eng *Engine, fn *ssa.Function, fc *FuncContract, name string) *Unit
 		specDefs: map[string]string{}, specBusy: map[string]string{}, specRec: map[string]bool{}, specPure: map[string]string{}, opaqueSpecs: map[string]bool{}}
 	u.wm0 = sc.declare("wm@0", SInt)
 	u.assume(tTrue, mk(SBool, ">", u.wm0, intConst(0)))
+	if eng != nil && eng.cs != nil {
+		for _, g := range sortedKeys(eng.cs.Globals) {
+			u.globalGhost(g)
+		}
+	}
 	return u
 }
 
@@ -201,6 +206,27 @@ func (u *Unit) elemRegion(elem types.Type) (string, string) {
 	region := "E_" + sortID(es)
 	u.regionSort(region, arraySort(SInt, arraySort(bvSort(64), es)))
 	return region, es
+}
+
+// globalGhost resolves a package-level trace ghost to its heap region.
+func (u *Unit) globalGhost(name string) (string, types.Type, bool) {
+	g, ok := u.eng.cs.Globals[name]
+	if !ok {
+		return "", nil, false
+	}
+	ce := &CEnv{u: u, pkg: u.eng.typesPkgByPath(g.Pkg), bound: map[string]CVal{}}
+	var t types.Type
+	func() {
+		defer func() { recover() }()
+		t = ce.resolveType(g.T)
+	}()
+	if t == nil {
+		u.errorf("global ghost %s: cannot resolve its type", name)
+		return "", nil, false
+	}
+	region := "GG_" + name
+	u.regionSort(region, u.te.sortOf(t))
+	return region, t, true
 }
 
 func (u *Unit) ghostRegion(name string, sortName string) string {
